@@ -13,7 +13,7 @@ W-iface     a class exposing any try_ member exposes the node pair and both-or-n
 """
 import re
 
-from engine import build, fwd, sym, witness, fixtures, flow
+from engine import build, fwd, sym, witness, fixtures, flow, linear
 from engine.facts import cls_template, strip_ns, top_term, subterms, tstr
 from rules import fwdrules
 
@@ -134,48 +134,59 @@ def _is_own_test(c):
 
 
 def check_intervals(run, db):
-    """memory_block::contains and memory_block_stack::owns: lower bound inclusive, upper bound strict, upper = lower + size"""
+    """memory_block::contains and memory_block_stack::owns answer true exactly on a half-open interval: some comparison that holds
+    on the accepting path bounds the pointer from below inclusively (B <= p), another bounds it strictly from above (p < B + S),
+    and the two bounds differ by a size.  Decided on linear forms of the comparisons, so the spelling (<= / >=, negations, a single
+    expression or nested ifs) does not matter."""
+    from rules import c16
     n = 0
+    roles = {0: 'ptr'}
     for f in db.find(cls_t='memory_block', short='contains') + db.find(cls_t='detail::memory_block_stack', short='owns'):
         n += 1
-        S = fwd.summarize(f, roles={0: 'ptr'})
-        comps = set()
+        S = fwd.summarize(f, roles=roles)
+        facts = []          # (linear form d, op) with `d op 0` holding where the function answers true
         for s in S:
-            for c, tk in s.conds:
-                comps.add((c, tk))
-            if s.ret and s.ret not in ('true', 'false'):
-                for part in re.findall(r'\([^()]*(?:\([^()]*\)[^()]*)*\)', s.ret):
-                    comps.add((part, True))
-                comps.add((s.ret, True))
-        # normalise: find (L <= $ptr) true / ($ptr < L) false, and ($ptr < (L + S)) true
-        lower = set()
-        upper = set()
+            if s.end != 'return':
+                continue
+            if s.ret == 'true':
+                for ct, tk in s.cond_terms:
+                    c = linear.compare(ct, tk, roles)
+                    if c:
+                        facts.append(c)
+            elif s.ret not in ('false', None) and s.ret_term is not None:
+                for a in c16._cmp_atoms(s.ret_term):
+                    c = linear.compare(a, True, roles)
+                    if c:
+                        facts.append(c)
+                for ct, tk in s.cond_terms:
+                    c = linear.compare(ct, tk, roles)
+                    if c:
+                        facts.append(c)
+        lowers = [(d, op) for d, op in facts if d.get('$ptr', 0) == -1]
+        uppers = [(d, op) for d, op in facts if d.get('$ptr', 0) == 1]
         bad = []
-        for c, tk in comps:
-            m = re.match(r'^\((.+) <= \$ptr\)$', c)
-            if m and tk:
-                lower.add(m.group(1))
-            m = re.match(r'^\(\$ptr < (.+)\)$', c)
-            if m and tk:
-                upper.add(m.group(1))
-            if re.match(r'^\(\$ptr <= (.+)\)$', c) and tk:
-                bad.append('upper bound is inclusive: %s' % c)
-            if re.match(r'^\((.+) < \$ptr\)$', c) and tk and '+' not in c:
-                bad.append('lower bound is exclusive: %s' % c)
         good = False
-        for lo in lower:
-            for up in upper:
-                u = up.strip('()')
-                if lo in up and '+' in up:
-                    good = True
+        for dl, opl in lowers:
+            base = {a: v for a, v in dl.items() if a != '$ptr'}            # B - p <= 0
+            for du, opu in uppers:
+                top = {a: -v for a, v in du.items() if a != '$ptr'}        # p - T < 0
+                diff = linear.sub(top, base)
+                if len(diff) == 1 and list(diff.values()) == [1] and 'size' in list(diff)[0]:
+                    if opl == '<':
+                        bad.append('lower bound is exclusive: the first byte of the block is not recognised')
+                    elif opu != '<':
+                        bad.append('upper bound is inclusive: the byte one past the block is taken for the block\'s')
+                    else:
+                        good = True
         inst = '%s [%s]' % (f.display, db.config)
         site = {'function': strip_ns(f.name), 'role': 'half-open interval'}
         if bad:
-            run.violation('R-OWN-IVL', inst, f.loc, '; '.join(bad), site=site)
+            run.violation('R-OWN-IVL', inst, f.loc, '; '.join(sorted(set(bad))), site=site)
         elif good:
-            run.ok('R-OWN-IVL', inst, f.loc, 'lower %s inclusive, upper %s strict' % (sorted(lower)[0], sorted(upper)[0]))
+            run.ok('R-OWN-IVL', inst, f.loc, 'base <= p < base + size')
         else:
-            run.violation('R-OWN-IVL', inst, f.loc, 'ownership test is not of the form base <= p && p < base + size (found %s)' % sorted(comps)[:4], site=site)
+            run.violation('R-OWN-IVL', inst, f.loc, 'ownership test is not of the form base <= p && p < base + size (comparisons found: %s)'
+                          % [linear.fmt(d) + ' ' + op + ' 0' for d, op in facts][:4], site=site)
     return n
 
 
